@@ -143,6 +143,8 @@ def run(ctx, config):
                 r2.bad("K7:ev_token_bucket_init_:clamp-channel", "%s:%d" % (h.file, b.term["loc"][0]), h.name, "a limit is clamped with the other channel's maximum")
     rules.append(r2)
     rules.append(rule_refill_eval(P))
+    from .C22 import rule_clip_eval
+    rules.append(rule_clip_eval(P, "C21-reinit"))
     return rules
 
 
